@@ -331,17 +331,21 @@ theorem rdb_unit_single_slot (r : Resolver) (replaceHashTag : Bool) (key : Bytes
     target key at the key positions of the static tables, behind `del <target>`
     (first bin, keyExists = replace) and followed by `pexpire <target> <ttl>` —
     has, in cluster mode, the slot of the target key, and EVERY business key
-    (as the builder's resolver names them, whatever the COMMAND GETKEYS
-    fall-back answers) and every control key of its commit transaction hashes
-    to that slot. The only hypothesis left is about the object parser's output
+    and every control key of its commit transaction hashes to that slot.
+    "Business key" = the key positions of the shared static tables, which is
+    what the cluster client's re-validation (`txnBatcher.Put`) and a cluster
+    node see; `buildBisyncRdbReplayUnit` itself consults NO resolver — it takes
+    the slot of the target key and trusts the expansion, so this theorem is
+    what makes that trust sound (`resolverWith fb` reads the tables first, so
+    the fall-back never matters here). The only hypothesis left is about the object parser's output
     (`RawOn`: its commands name, by the static tables, key positions that all
     hold the entry's key and do not move under the rewriting). -/
 theorem rdb_unit_single_slot_built (fb : Bytes → List Bytes → Fb) (useRestore firstBin replaceExisting replaceHashTag : Bool)
-    (key : Bytes) (raw : List Cmd) (ttl : Option Bytes) (ttlArg dump : Bytes)
+    (key : Bytes) (raw : List Cmd) (ttl : Option Bytes) (ttlArg dump : Bytes) (v5 : Bool) (idle freq : Nat)
     (cp : Bytes) (k : CommitKind) (p : Payload) (hcp : lbrace ∉ cp)
     (hraw : ∀ c ∈ raw, RawOn key (rdbTargetKey replaceHashTag key) c) :
     let tgt := rdbTargetKey replaceHashTag key
-    let u := buildRdbUnit true replaceHashTag key (rdbCommands useRestore firstBin replaceExisting key tgt raw ttl ttlArg dump)
+    let u := buildRdbUnit true replaceHashTag key (rdbCommands useRestore firstBin replaceExisting key tgt raw ttl ttlArg dump v5 idle freq)
     u.slot = hashSlotSpec tgt ∧
     ∀ x ∈ unitKeys (resolverWith fb) u ++ controlKeys cp k u p, hashSlotSpec x = u.slot := by
   intro tgt u
@@ -359,6 +363,19 @@ theorem rdb_unit_single_slot_built (fb : Bytes → List Bytes → Fb) (useRestor
     · exact rdbExpanded_onKey key tgt raw _ ttl hemp hraw c hc
   exact resolved_of_onKey fb tgt c hon x hx
 
+/-- the commands pkg/rdb's object parsers emit for a stream, as they emit them
+    (upper case): `XADD key …`, `XSETID key …`, `XCLAIM key …` are of the tables'
+    first-key class, `XGROUP CREATE key …` has the key as its SECOND argument
+    (extractor): all satisfy `RawOn` on the entry's key -/
+theorem raw_stream_commands (src tgt : Bytes) (rest : List Bytes) :
+    RawOn src tgt ⟨[88,65,68,68], src :: rest⟩ ∧ RawOn src tgt ⟨[88,83,69,84,73,68], src :: rest⟩ ∧        -- XADD, XSETID
+    RawOn src tgt ⟨[88,67,76,65,73,77], src :: rest⟩ ∧                                                        -- XCLAIM
+    RawOn src tgt ⟨[88,71,82,79,85,80], [67,82,69,65,84,69] :: src :: rest⟩ ∧                                 -- XGROUP CREATE
+    RawOn src tgt ⟨[120,103,114,111,117,112], [99,114,101,97,116,101] :: src :: rest⟩ :=                      -- xgroup create
+  ⟨rawOn_generic _ _ _ _ (by decide +kernel) (by decide +kernel), rawOn_generic _ _ _ _ (by decide +kernel) (by decide +kernel),
+   rawOn_generic _ _ _ _ (by decide +kernel) (by decide +kernel),
+   rawOn_xgroup _ _ _ _ _ (by decide +kernel) (by decide), rawOn_xgroup _ _ _ _ _ (by decide +kernel) (by decide)⟩
+
 /-- the commands the object parsers emit for strings, hashes, lists, sets,
     sorted sets and stream entries are of the tables' first-key class: on the
     entry's key they satisfy `RawOn`, whatever else they carry -/
@@ -371,6 +388,31 @@ theorem raw_first_key_commands (src tgt : Bytes) (rest : List Bytes) :
    rawOn_generic _ _ _ _ (by decide +kernel) (by decide +kernel), rawOn_generic _ _ _ _ (by decide +kernel) (by decide +kernel),
    rawOn_generic _ _ _ _ (by decide +kernel) (by decide +kernel), rawOn_generic _ _ _ _ (by decide +kernel) (by decide +kernel),
    rawOn_generic _ _ _ _ (by decide +kernel) (by decide +kernel), rawOn_generic _ _ _ _ (by decide +kernel) (by decide +kernel)⟩
+
+-- an instance of the theorem: key "u{a}{b}" under replace-hashtag (the slot moves from "a" to "b"), first bin,
+-- keyExists = replace, a hash field and a stream group: every key of the unit on the slot of "ua{b}"
+example (fb : Bytes → List Bytes → Fb) (cp : Bytes) (hcp : lbrace ∉ cp) (p : Payload) :
+    ∀ x ∈ unitKeys (resolverWith fb) (buildRdbUnit true true [117,123,97,125,123,98,125]
+        (rdbCommands false true true [117,123,97,125,123,98,125] (rdbTargetKey true [117,123,97,125,123,98,125])
+          [⟨[72,83,69,84], [[117,123,97,125,123,98,125], [102], [118]]⟩,
+           ⟨[88,71,82,79,85,80], [[67,82,69,65,84,69], [117,123,97,125,123,98,125], [103], [36]]⟩] (some [84]) [84] [68]))
+      ++ controlKeys cp .rdb (buildRdbUnit true true [117,123,97,125,123,98,125]
+        (rdbCommands false true true [117,123,97,125,123,98,125] (rdbTargetKey true [117,123,97,125,123,98,125])
+          [⟨[72,83,69,84], [[117,123,97,125,123,98,125], [102], [118]]⟩,
+           ⟨[88,71,82,79,85,80], [[67,82,69,65,84,69], [117,123,97,125,123,98,125], [103], [36]]⟩] (some [84]) [84] [68])) p,
+      hashSlotSpec x = hashSlotSpec [117,97,123,98,125] := by
+  have h := rdb_unit_single_slot_built fb false true true true [117,123,97,125,123,98,125]
+    [⟨[72,83,69,84], [[117,123,97,125,123,98,125], [102], [118]]⟩,
+     ⟨[88,71,82,79,85,80], [[67,82,69,65,84,69], [117,123,97,125,123,98,125], [103], [36]]⟩] (some [84]) [84] [68] false 0 0
+    cp .rdb p hcp (by
+      intro c hc
+      simp only [List.mem_cons, List.not_mem_nil, or_false] at hc
+      rcases hc with rfl | rfl
+      · exact (raw_first_key_commands _ _ _).2.2.2.2.2.2.2
+      · exact (raw_stream_commands _ _ _).2.2.2.1)
+  intro x hx
+  rw [h.2 x hx, h.1]
+  rfl
 
 -- a hash of two fields under replace-hashtag, first bin, keyExists = replace, with an expiry:
 -- del / hset / hset / pexpire, every key rewritten to the target key "ua{b}"
